@@ -20,6 +20,7 @@ from __future__ import annotations
 import collections
 import multiprocessing as mp
 import os
+import resource
 import time
 
 from vf import c17_lib as L
@@ -133,6 +134,7 @@ def _stage(ctx: Ctx, name: str, tasks: list, total: dict,
         outcomes=dict(sorted(part['out'].items())),
         skipped_by_rule=dict(sorted(part['skipped'].items())),
         seconds=round(time.time() - t0, 1),
+        worker_cpu_seconds=round(part['cpu'], 1),
     )
     return sorted(set(extra))
 
@@ -155,6 +157,10 @@ def run(ctx: Ctx) -> None:
     finally:
         _WORKERS.close()
         _WORKERS = None
+        ru = [resource.getrusage(w) for w in
+              (resource.RUSAGE_SELF, resource.RUSAGE_CHILDREN)]
+        ctx.part('setup', cpu_seconds=round(
+            sum(r.ru_utime + r.ru_stime for r in ru), 1))
 
 
 def _run(ctx: Ctx, total: dict, libs: tuple) -> None:
@@ -182,7 +188,7 @@ def _run(ctx: Ctx, total: dict, libs: tuple) -> None:
     P = L.placed_ops(3, keys)
     tasks = [('rt2', 3, i, excluded, not quick, seed) for i in range(len(P))]
     _stage(ctx, 'roundtrip-two-ops-3-qubits', tasks, total,
-           budget=30 if quick else 240)
+           budget=None if quick else 240)
     if not quick:
         tasks = []
         P = L.placed_ops(1, keys)
@@ -228,7 +234,7 @@ def _run(ctx: Ctx, total: dict, libs: tuple) -> None:
         nA = len(W.seq_alphabet(lay, seed, False))
         tasks += [('b2', lay, (i,), False, seed) for i in range(nA)]
     _stage(ctx, 'programs-two-statements', tasks, total,
-           budget=15 if quick else 120)
+           budget=None if quick else 120)
     if not quick:
         tasks = []
         for lay in W.LAYOUTS[2:]:
@@ -241,7 +247,7 @@ def _run(ctx: Ctx, total: dict, libs: tuple) -> None:
     tasks = [('e2', leaves, ai, op, c, 3) for ai in range(len(leaves), nO)
              for op in L.BINOPS for c in range(3)]
     _stage(ctx, 'programs-expressions-depth-2', tasks, total,
-           budget=20 if quick else 240)
+           budget=None if quick else 240)
 
     nch = 8 if quick else 32
     tasks = [('gd2', k, m, quick, c, nch) for k, m in W.gd2_tasks()
@@ -268,7 +274,7 @@ def _run(ctx: Ctx, total: dict, libs: tuple) -> None:
     tasks = [('tr2', lib, n2, i, tag, excluded, seed, c, 4)
              for i in range(len(P)) for c in range(4) for lib in libs]
     _stage(ctx, 'translators-two-ops', tasks, total,
-           budget=15 if quick else 240)
+           budget=None if quick else 240)
 
     # un-judged observation (outside the statement: not part of the unitary)
     try:
